@@ -30,8 +30,10 @@ import (
 	"encoding/json"
 	"fmt"
 	"os"
+	"os/exec"
 	"path/filepath"
 	"runtime"
+	"runtime/debug"
 	"sort"
 	"strconv"
 	"strings"
@@ -173,9 +175,38 @@ func (d *recDebugger) VisitStepOutState(node *parser.ASTNode, vs parser.Scope, t
 	return d.ECALDebugger.VisitStepOutState(node, vs, tid, soErr)
 }
 
-func (d *recDebugger) RecordThreadFinished(tid uint64) {
+// The `f` (execution finished) events of a trace are NOT taken from the code's own
+// RecordThreadFinished calls: the harness inserts them by specification — after the entry file and
+// after every console line of a command line session (c15CLISession), after every execution of a
+// sink body (c15WrapSinks).
+func (d *recDebugger) executionFinished(tid uint64) {
 	d.note(tid, "f")
-	d.ECALDebugger.RecordThreadFinished(tid)
+}
+
+// c15SinkBodyRuntime marks the end of every execution of a sink body, however it ends.
+type c15SinkBodyRuntime struct {
+	parser.Runtime
+	rec *recDebugger
+}
+
+func (r *c15SinkBodyRuntime) Eval(vs parser.Scope, is map[string]interface{}, tid uint64) (interface{}, error) {
+	defer r.rec.executionFinished(tid)
+	return r.Runtime.Eval(vs, is, tid)
+}
+
+func c15WrapSinks(n *parser.ASTNode, rec *recDebugger) {
+	if n.Name == parser.NodeSINK {
+		for _, c := range n.Children {
+			if c.Name == parser.NodeSTATEMENTS {
+				if _, done := c.Runtime.(*c15SinkBodyRuntime); !done {
+					c.Runtime = &c15SinkBodyRuntime{c.Runtime, rec}
+				}
+			}
+		}
+	}
+	for _, c := range n.Children {
+		c15WrapSinks(c, rec)
+	}
 }
 
 func (d *recDebugger) tids() []uint64 {
@@ -261,6 +292,7 @@ type c15Sched struct {
 	isTid  map[interface{}]uint64
 	events map[uint64][]string
 	parked map[uint64]chan struct{}
+	gaveUp map[uint64]bool
 	seen   int32 // number of debug.* hook events (hooks present?)
 }
 
@@ -323,7 +355,12 @@ func (s *c15Sched) at(point string, args []interface{}) {
 			s.mu.Unlock()
 			select {
 			case <-ch:
-			case <-time.After(5 * time.Second):
+			case <-time.After(400 * time.Millisecond):
+				// the controller's Continue did not complete while this thread stands here (it may
+				// be blocked on a lock this thread holds): give the window up
+				s.mu.Lock()
+				s.gaveUp[tid] = true
+				s.mu.Unlock()
 			}
 		} else {
 			s.jitter()
@@ -365,6 +402,9 @@ func (s *c15Sched) takeParked(tid uint64) chan struct{} {
 }
 
 var c15HsFile, c15VtFile, c15HangFile *os.File
+
+// c15Hangs counts the hung cases of this process.
+var c15Hangs int
 
 func c15Side(f **os.File, name string, line string) {
 	if *f == nil {
@@ -426,7 +466,9 @@ const c15Source = "t"
 
 // positions are numbers: <source index>*1000 + line; sources: 0 = "t", 1 = "lib", 2 = "main",
 // 3 = the entry file of the command line interpreter (set per case), 4 = its console input
-var c15Sources = []string{c15Source, "lib", "main", "entry.ecal", "console input"}
+// (the library of the life-cycle cases is called "t2", their main program "t": break point keys of one
+// source are a PREFIX of the other's)
+var c15Sources = []string{c15Source, "t2", "main", "entry.ecal", "console input"}
 
 func c15SrcOffset(name string) int {
 	for i, s := range c15Sources {
@@ -492,7 +534,7 @@ func c15Debugged(c *c15Run, kill bool) (threads []*c15Thread, lg *memLog, rec *r
 	}
 	defer erp.Cron.Stop()
 	sched := &c15Sched{mode: c.timing, rng: NewRand(c.seed), isTid: map[interface{}]uint64{},
-		events: map[uint64][]string{}, parked: map[uint64]chan struct{}{}}
+		events: map[uint64][]string{}, parked: map[uint64]chan struct{}{}, gaveUp: map[uint64]bool{}}
 	if !c15HooksPresent() && c.timing == "window" {
 		sched.mode = "poll"
 	}
@@ -528,6 +570,7 @@ func c15Debugged(c *c15Run, kill bool) (threads []*c15Thread, lg *memLog, rec *r
 			return []*c15Thread{t}, lg, rec, false
 		}
 		c15WrapLiterals(ast, rec)
+		c15WrapSinks(ast, rec)
 	}
 	for i := 0; i < c.n; i++ {
 		vs := gvs
@@ -553,7 +596,7 @@ func c15Debugged(c *c15Run, kill bool) (threads []*c15Thread, lg *memLog, rec *r
 					func() { erp.Debugger = nil; rec.setOn(false) },
 					func(a *parser.ASTNode) { c15WrapLiterals(a, rec) })
 			} else if ci != nil {
-				t.res = c15CLISession(ci, c.cliLines, t.tid)
+				t.res = c15CLISession(ci, c.cliLines, t.tid, rec)
 			} else if c.workers > 0 {
 				// addEvent starts the processor (rules can only be added while it is stopped)
 				t.res, t.err = ast.Runtime.Eval(t.vs, make(map[string]interface{}), t.tid)
@@ -622,8 +665,17 @@ func c15Debugged(c *c15Run, kill bool) (threads []*c15Thread, lg *memLog, rec *r
 		// stands in cond.Wait() although the debugger reports it as running (the lost resume),
 		// unchanged for a grace period. Without that evidence only a long time without any
 		// progress counts (the machine may be heavily loaded).
-		if time.Since(last) > 20*time.Second || (!stuckSince.IsZero() && time.Since(stuckSince) > 2*time.Second) {
+		// (once several cases of this process have hung the tree is broken anyway: shorter patience, so
+		// that a run with hundreds of hanging cases stays within minutes)
+		patience := 20 * time.Second
+		if c15Hangs >= 10 {
+			patience = 1500 * time.Millisecond
+		} else if c15Hangs >= 3 {
+			patience = 4 * time.Second
+		}
+		if time.Since(last) > patience || (!stuckSince.IsZero() && time.Since(stuckSince) > 2*time.Second) {
 			hang = true
+			c15Hangs++
 			buf := make([]byte, 1<<20)
 			buf = buf[:runtime.Stack(buf, true)]
 			c15Side(&c15HangFile, "c15-hang", c.payload+"\n"+string(buf))
@@ -715,6 +767,15 @@ func c15Debugged(c *c15Run, kill bool) (threads []*c15Thread, lg *memLog, rec *r
 			}
 			rec.HandleInput("cont " + id + " " + c15Cmds[parts[len(parts)-1][0]])
 			if parked != nil {
+				sched.mu.Lock()
+				missed := sched.gaveUp[t.tid]
+				delete(sched.gaveUp, t.tid)
+				sched.mu.Unlock()
+				if missed {
+					CountRun("window.missed")
+				} else {
+					CountRun("window.inside") // Continue completed while the thread stood in the window
+				}
 				close(parked)
 			}
 			last = time.Now()
@@ -839,9 +900,9 @@ func c15Life(mode string, erp *interpreter.ECALRuntimeProvider, lib, main string
 		case "d":
 			detach()
 		case "l":
-			libAst = load("lib", lib)
+			libAst = load(c15Sources[1], lib)
 		case "m":
-			mainAst = load("main", main)
+			mainAst = load(c15Sources[0], main)
 		case "1":
 			eval(libAst)
 		case "2", "3":
@@ -999,16 +1060,23 @@ func c15NewCLI(src string, lg util.Logger) *tool.CLIInterpreter {
 
 // c15CLISession: load the entry file, then feed the console lines (what `ecal run`/console does
 // per line: parse as "console input", validate, evaluate, report the thread as finished).
-func c15CLISession(ci *tool.CLIInterpreter, lines []string, tid uint64) string {
+func c15CLISession(ci *tool.CLIInterpreter, lines []string, tid uint64, rec *recDebugger) string {
 	defer os.RemoveAll(*ci.Dir)
+	finished := func() {
+		if rec != nil {
+			rec.executionFinished(tid)
+		}
+	}
 	var out []string
 	if err := ci.LoadInitialFile(tid); err != nil {
 		out = append(out, "load: "+err.Error())
 	}
+	finished()
 	for _, l := range lines {
 		term := &c15Term{}
 		ci.HandleInput(term, l, tid)
 		out = append(out, term.sb.String())
+		finished()
 	}
 	ci.RuntimeProvider.Processor.Finish()
 	return strings.Join(out, "|")
@@ -1019,7 +1087,7 @@ func c15CLIPlain(src string, lines []string) (string, []string, []string) {
 	lg := &memLog{}
 	ci := c15NewCLI(src, lg)
 	defer ci.RuntimeProvider.Cron.Stop()
-	res := c15CLISession(ci, lines, ci.RuntimeProvider.NewThreadID())
+	res := c15CLISession(ci, lines, ci.RuntimeProvider.NewThreadID(), nil)
 	out := c15Outcome(res, nil, ci.GlobalVS)
 	logs := append([]string(nil), lg.lines...)
 	ci2 := c15NewCLI(src, &memLog{})
@@ -1029,7 +1097,7 @@ func c15CLIPlain(src string, lines []string) (string, []string, []string) {
 	rec := newRecDebugger(dbg)
 	ci2.RuntimeProvider.Debugger = rec
 	tid := ci2.RuntimeProvider.NewThreadID()
-	c15CLISession(ci2, lines, tid)
+	c15CLISession(ci2, lines, tid, rec)
 	return out, logs, rec.trace(tid)
 }
 
@@ -1064,6 +1132,43 @@ func c15RunI(f []string, payload string) string {
 	return r
 }
 
+// c15RunY: a program for which attaching the debugger is known to kill the PROCESS (stack overflow in
+// the scope snapshot of a self-containing value): run the debugged case in a child process.
+func c15RunY(progHex string) string {
+	cmd := exec.Command(os.Args[0], "C15", "-one", "D 1 00 - - poll 1 - "+progHex)
+	cmd.Env = append(os.Environ(), "C15_CHILD=1")
+	var out strings.Builder
+	cmd.Stdout = &out
+	done := make(chan error, 1)
+	if err := cmd.Start(); err != nil {
+		return "cannot-start-child"
+	}
+	go func() { done <- cmd.Wait() }()
+	select {
+	case err := <-done:
+		if err == nil {
+			if l := strings.TrimSpace(out.String()); strings.HasPrefix(l, "same=") {
+				return l
+			}
+		}
+	case <-time.After(60 * time.Second):
+		cmd.Process.Kill()
+	}
+	CountRun("Y.died")
+	return "DIES-with-debugger-attached"
+}
+
+// c15KnownListed: is the finding id listed in known_findings.txt of the verification tree? (the check
+// runs the harness in <verif>/.work/<dir>/)
+func c15KnownListed(id string) bool {
+	for _, p := range []string{"../../known_findings.txt", "known_findings.txt"} {
+		if b, err := os.ReadFile(p); err == nil {
+			return strings.Contains(string(b), "id="+id+" ")
+		}
+	}
+	return false
+}
+
 // c15SinkProgram: a sink with the given body lines, `events` events of its kind.
 func c15SinkProgram(body []string, events int) string {
 	lines := []string{"func h(a) {", "    return a * 2", "}", "sink s1", "    kindmatch [ \"ev.a\" ],", "    {"}
@@ -1091,6 +1196,9 @@ func c15SinkRun(src string, workers int, rec *recDebugger) (string, []string) {
 	}
 	if err != nil {
 		return c15Outcome(nil, err, vs), nil
+	}
+	if rec != nil {
+		c15WrapSinks(ast, rec)
 	}
 	res, err := ast.Runtime.Eval(vs, make(map[string]interface{}), erp.NewThreadID())
 	erp.Processor.Finish()
@@ -1263,7 +1371,7 @@ var c15Hooks bool
 func c15HooksPresent() bool {
 	c15HooksOnce.Do(func() {
 		s := &c15Sched{mode: "poll", rng: NewRand(1), isTid: map[interface{}]uint64{},
-			events: map[uint64][]string{}, parked: map[uint64]chan struct{}{}}
+			events: map[uint64][]string{}, parked: map[uint64]chan struct{}{}, gaveUp: map[uint64]bool{}}
 		c15Install(s)
 		erp := interpreter.NewECALRuntimeProvider("t", nil, &memLog{})
 		defer erp.Cron.Stop()
@@ -1341,7 +1449,7 @@ func (p *c15Gen) block(d int, n int) {
 }
 
 func (p *c15Gen) stmt(d int) {
-	k := p.r.Intn(17)
+	k := p.r.Intn(18)
 	if d <= 0 && k >= 5 && k <= 8 {
 		k = 0
 	}
@@ -1447,6 +1555,13 @@ func (p *c15Gen) stmt(d int) {
 			p.vars = append(p.vars, v)
 		} else {
 			p.emit("log(\"nf\")")
+		}
+	case 17:
+		// try and except on ONE line around a call (the except block is on the line of the call)
+		if len(p.funcs) > 0 {
+			p.emit("try { " + p.funcs[p.r.Intn(len(p.funcs))] + "(" + p.expr(1) + ") } except { log(\"c1\") }")
+		} else {
+			p.emit("try { raise(\"E7\") } except { log(\"c1\") }")
 		}
 	case 13:
 		// lines holding a single token-bearing node
@@ -1680,6 +1795,15 @@ var c15Directed = [][3]string{
 	{"func f(a) {\n    for i in range(1, 3) {\n        b := i\n        c := b\n    }\n    return a\n}\nx := f(1)\nx", "s8,s3", "O,U,U,U,U"},
 }
 
+// directed cases with breakOnError on (the default of NewECALDebugger)
+var c15DirectedBoe = [][3]string{
+	// an error passing outer calls must not move the thread's position: coming back to line 7 (the except
+	// block on the line of the try) from line 2 suspends again
+	{"func g() {\n    raise(\"x\")\n}\nfunc f() {\n    g()\n}\ntry { f() } except { log(\"caught\") }\nlog(\"end\")", "s7", "R,R,R,R"},
+	{"func g() {\n    raise(\"x\")\n}\nfunc f() {\n    g()\n}\ntry { f() } except { log(\"caught\") }\nlog(\"end\")", "s7,s5", "I,O,R,U,R"},
+	{"func f(a) {\n    return 1 / a\n}\ntry { f(0) } except { log(\"c\") } finally { log(\"f\") }\ntry { f(1) } except { log(\"c\") }\n7", "s4,s5", "R,R,R,R,R"},
+}
+
 func init() {
 	register("C15", &Prop{
 		Timeout:          90 * time.Second,
@@ -1688,10 +1812,27 @@ func init() {
 			if len(args) == 2 && args[0] == "extract" {
 				return c15Extract(args[1])
 			}
-			fmt.Fprintln(os.Stderr, "usage: harness C15 -tool extract <out.lean|->")
+			if len(args) == 1 && args[0] == "pin" {
+				fmt.Println("package main\n\n// GENERATED ONCE by `harness C15 -tool pin` on a tree on which the check passed, then committed:\n// literal visit traces of the directed programs (the expectation of a directed case must not be\n// recomputed from the tree under test).\nvar c15Pinned = map[string]string{")
+				seenProg := map[string]bool{}
+				for _, d := range append(append([][3]string{}, c15Directed...), c15DirectedBoe...) {
+					if seenProg[d[0]] {
+						continue
+					}
+					seenProg[d[0]] = true
+					_, _, trace := c15Plain(d[0])
+					fmt.Printf("\t%q: %q,\n", d[0], c15TraceStr(trace))
+				}
+				fmt.Println("}")
+				return 0
+			}
+			fmt.Fprintln(os.Stderr, "usage: harness C15 -tool extract <out.lean|-> | pin")
 			return 2
 		},
 		Setup: func() {
+			if os.Getenv("C15_CHILD") != "" {
+				debug.SetMaxStack(32 << 20) // die quickly on the known stack overflow
+			}
 			registerX("attach", func(args []interface{}) (interface{}, error) {
 				if h := c15AttachHook; h != nil {
 					h()
@@ -1757,7 +1898,13 @@ func init() {
 				g.Emit(fmt.Sprintf("K %s %s %s %s", kn, c15BpOps(r, nLines, visited), c15TraceStr(trace), hx(src)))
 			}
 			for _, d := range c15Directed {
+				// the expectation of a directed case must not come from the tree under test: its visit
+				// trace is the literal in c15pinned.go (`harness C15 -tool pin` printed it once)
 				_, _, trace := c15Plain(d[0])
+				if lit, ok := c15Pinned[d[0]]; ok {
+					trace = strings.Split(lit, ",")
+					g.Count("D.directed.pinned")
+				}
 				for _, timing := range []string{"poll", "window"} {
 					g.Count("D.directed")
 					g.Emit(fmt.Sprintf("D 1 00 %s %s %s 1 %s %s", d[1], d[2], timing, c15TraceStr(trace), hx(d[0])))
@@ -1766,6 +1913,19 @@ func init() {
 			// the command line interpreter (cli/tool/interpret.go): entry file, then console lines on the
 			// same thread; each line is its own parse unit "console input" and ends with
 			// RecordThreadFinished
+			{
+				entry := "func f(a) {\n    return a + 1\n}\nlibv := 1"
+				console := []string{"raise(\"x\")", "a := 1", "b := 1 / 0", "c := f(a)", "return c"}
+				_, _, trace := c15CLIPlain(entry, console)
+				var hexes []string
+				for _, l := range console {
+					hexes = append(hexes, hx(l))
+				}
+				for _, sc := range []string{"-", "I,R,O,U"} {
+					g.Count("I")
+					g.Emit(fmt.Sprintf("I 00 s4001 %s %s %s %s", sc, c15TraceStr(trace), hx(entry), strings.Join(hexes, ",")))
+				}
+			}
 			nCli := 12
 			if g.Thorough() {
 				nCli = 150
@@ -1788,6 +1948,10 @@ func init() {
 				}
 				if len(console) > 6 {
 					console = console[:6]
+				}
+				if i%2 == 0 {
+					// lines that end with an error
+					console = append([]string{[]string{"raise(\"E9\")", "q9 := 1 / 0", "q8 := nope9.x"}[i%3]}, console...)
 				}
 				_, _, trace := c15CLIPlain(lib, console)
 				if len(trace) > 1200 {
@@ -1829,6 +1993,11 @@ func init() {
 				{"x := event.state.n", "log(\"s\", x)"},
 				{"x := h(event.state.n)", "y := x + 1", "log(\"s\", y)"},
 				{"x := event.state.n", "if x > 2 {", "    x := h(x)", "}", "log(\"s\", x)"},
+				// bodies that do not end normally
+				{"return event.state.n"},
+				{"x := event.state.n", "raise(\"E\", \"m\", x)"},
+				{"log(\"s\", 1 / 0)"},
+				{"x := h(event.state.n)", "return x"},
 			}
 			// a step command pending when an execution ends must not hide the break point from the
 			// worker's next execution (one worker: deterministic)
@@ -1917,8 +2086,12 @@ func init() {
 								ops = append(ops, "d"+strconv.Itoa(l))
 							}
 						}
+						if r.Intn(5) == 0 && len(vis) > 0 {
+							// remove every break point of ONE source, then set one in the other source again
+							ops = append(ops, []string{"r0", "r1000"}[r.Intn(2)], "s"+strconv.Itoa(vis[r.Intn(len(vis))]))
+						}
 						if len(ops) == 0 {
-							ops = []string{"s2001"}
+							ops = []string{"s1"}
 						}
 						bo = strings.Join(ops, ",")
 						sc = c15Script(r, 1, false)
@@ -1931,11 +2104,14 @@ func init() {
 					g.Emit(fmt.Sprintf("L %s 0%s %s %s %s %s %s", mode, boe, bo, sc, c15TraceStr(trace), hx(lib), hx(main)))
 				}
 			}
-			emitL("func f(a) {\n    b := a + 1\n    return b * 2\n}\nlibv := 5", "x := f(1)\ny := f(x) + libv\n[x, y]", NewRand(5), "s1002,s2002", "R,R,R,R,R,R")
-			emitL("func f(a) {\n    b := a + 1\n    return b * 2\n}\nlibv := 5", "x := f(1)\ny := f(x) + libv\n[x, y]", NewRand(6), "s1003,s1005,s2001", "I,O,U,R,I,I,O,R")
+			emitL("func f(a) {\n    b := a + 1\n    return b * 2\n}\nlibv := 5", "x := f(1)\ny := f(x) + libv\n[x, y]", NewRand(5), "s1002,s2", "R,R,R,R,R,R")
+			emitL("func f(a) {\n    b := a + 1\n    return b * 2\n}\nlibv := 5", "x := f(1)\ny := f(x) + libv\n[x, y]", NewRand(6), "s1003,s1005,s1", "I,O,U,R,I,I,O,R")
 			attLib := "\nfunc att(a) {\n    b := a + 1\n    x.attach()\n    c := b + 1\n    return c\n}\nfunc att2(a) {\n    d := att(a)\n    return d + 1\n}"
-			emitL("libv := 5"+attLib, "q := att(1)\nr := att2(q)\n[q, r]", NewRand(7), "s1005,s2002", "R,R,R,R")
-			emitL("libv := 5"+attLib, "q := att2(1)\nr := att(q)\n[q, r]", NewRand(8), "s1005,s1006,s2002", "I,U,O,R,R,R")
+			// `rmbreak t` must leave the break points of source `t2` alone (and the other way round)
+			emitL("func f(a) {\n    b := a + 1\n    return b * 2\n}\nlibv := 5", "x := f(1)\ny := f(x) + libv\n[x, y]", NewRand(9), "s1002,s2,s3,r0", "R,R,R,R,R,R")
+			emitL("func f(a) {\n    b := a + 1\n    return b * 2\n}\nlibv := 5", "x := f(1)\ny := f(x) + libv\n[x, y]", NewRand(10), "s1002,s1003,s2,r1000", "R,R,R,R,R,R")
+			emitL("libv := 5"+attLib, "q := att(1)\nr := att2(q)\n[q, r]", NewRand(7), "s1005,s2", "R,R,R,R")
+			emitL("libv := 5"+attLib, "q := att2(1)\nr := att(q)\n[q, r]", NewRand(8), "s1005,s1006,s2", "I,U,O,R,R,R")
 			nLife := 40
 			if g.Thorough() {
 				nLife = 600
@@ -1949,6 +2125,23 @@ func init() {
 				if i%3 == 0 {
 					emitL(lib+attLib, "q0 := "+[]string{"att", "att2"}[i%2]+"(1)\n"+main, g.R, "", "")
 				}
+			}
+			// known finding debugger-snapshot-cyclic-value (emitted once the id is listed, so that the check
+			// stays green until then)
+			if c15KnownListed("debugger-snapshot-cyclic-value") {
+				g.Count("Y")
+				g.Emit("Y " + hx("a := {\"k\": 1}\na.self := a\nfunc f() {\n    return 1\n}\nx := f()\nx"))
+			} else {
+				g.Count("Y.not-emitted-id-not-listed-yet")
+			}
+			for _, d := range c15DirectedBoe {
+				_, _, trace := c15Plain(d[0])
+				if lit, ok := c15Pinned[d[0]]; ok {
+					trace = strings.Split(lit, ",")
+					g.Count("D.directed.pinned")
+				}
+				g.Count("D.directed")
+				g.Emit(fmt.Sprintf("D 1 01 %s %s poll 1 %s %s", d[1], d[2], c15TraceStr(trace), hx(d[0])))
 			}
 			for i, src := range c15Corpus {
 				emitD(src, NewRand(uint64(1000+i)), true)
@@ -1970,6 +2163,8 @@ func init() {
 				return c15RunZ(f[1:], payload)
 			case f[0] == "S" && len(f) == 7:
 				return c15RunS(f[1:], payload)
+			case f[0] == "Y" && len(f) == 2:
+				return c15RunY(f[1])
 			case f[0] == "I" && len(f) == 7:
 				return c15RunI(f[1:], payload)
 			}
